@@ -119,4 +119,13 @@ def replay(path):
     ok, log = vf.build_harness(ctx, ['c20'])
     if not ok:
         print(log); return 2
-    return subprocess.call([os.path.join(vf.BIN, 'c20'), '-replay', path, '-python', sys.executable, '-tool', TOOL])
+    cmd = [os.path.join(vf.BIN, 'c20'), '-replay', path, '-python', sys.executable, '-tool', TOOL]
+    try:
+        d = json.load(open(path))
+        cap = (d.get('run') or (d.get('first_disagreement') or {}).get('run') or {}).get('cap')
+        av = sorted(os.sched_getaffinity(0))
+        if cap and cap < len(av):
+            cmd = ['taskset', '-c', ','.join(map(str, av[:cap]))] + cmd
+    except Exception:
+        pass
+    return subprocess.call(cmd)
